@@ -153,6 +153,8 @@ impl Write for Stingy {
         }
         let n = b.len().min(self.k);
         self.out.extend_from_slice(&b[..n]);
+        // the test archive is < 1 MiB: a destination that has received 32 MiB is being sent the same bytes again and again
+        assert!(self.out.len() < 32 * 1024 * 1024, "destination accepting {} bytes per write (Interrupted every {}): received {} bytes for an archive of less than 1 MiB -- bytes are sent more than once", self.k, self.intr, self.out.len());
         Ok(n)
     }
     fn flush(&mut self) -> std::io::Result<()> { Ok(()) }
